@@ -19,11 +19,6 @@ def showFinal : Option Mask → String
   | none => "absent"
   | some m => toString m.toNat
 
-def select : List α → List Char → List α
-  | x :: xs, '1' :: ks => x :: select xs ks
-  | _ :: xs, _ :: ks => select xs ks
-  | _, _ => []
-
 def handle (ws : List String) : String :=
   match ws with
   | ["final", cs] =>
@@ -31,15 +26,17 @@ def handle (ws : List String) : String :=
     match parseCjs cs with
     | some C => showFinal (finalMask C)
     | none => "bad-op"
-  | ["red", cs, keep] =>
-    -- is dropping the conjuncts not marked in `keep` invisible in the final value?
-    match parseCjs cs with
-    | some C =>
-      if keep.length != C.length then "bad-op" else
-      let Kp := select C keep.toList
-      if finalMask Kp == finalMask C then "ok"
-      else s!"changed {showFinal (finalMask C)} {showFinal (finalMask Kp)}"
-    | none => "bad-op"
+  | ["red", bs, as] =>
+    -- `bs`: the conjuncts of one vertex before trim, `as`: what trim left of them.
+    -- "ok" iff every conjunct left was there before (or is `_`, trim's replacement for a
+    -- value it emptied) and the default-resolved final value (incl. existence) is the same.
+    match parseCjs bs, parseCjs as with
+    | some B, some A =>
+      let isTop (c : Cj (DV Mask)) : Bool := c.val.v == 16777215#32 && c.val.d == 16777215#32 && !c.pattern
+      if !(A.all fun a => B.contains a || isTop a) then "not-sub"
+      else if finalMask A == finalMask B then "ok"
+      else s!"changed {showFinal (finalMask B)} {showFinal (finalMask A)}"
+    | _, _ => "bad-op"
   | ["model-trim", cs] =>
     -- what the specification-level trimmer keeps on a vertex of plain conjuncts
     -- (answer: number kept, final value); pattern conjuncts are not accepted here
